@@ -80,6 +80,11 @@ func genApiPlan(r *rand.Rand) *ApiPlan {
 	}
 	for i := 0; i < n; i++ {
 		at += apiOffsets[r.IntN(len(apiOffsets))] / int64(1+r.IntN(2))
+		if r.IntN(4) == 0 {
+			// exactly on a tick of the session collector (every 15 minutes): the request and the
+			// collector's pass over the session table are eligible in the same scheduling step
+			at = (at/900000 + 1) * 900000
+		}
 		op := ApiOp{AtMs: at}
 		switch x := r.IntN(10); {
 		case x < 3 || nsess == 0 && x < 6:
